@@ -149,14 +149,14 @@ PERMISSIONLESS_BIT = 4          # PERMISSIONLESS_BAD_DEBT_SETTLEMENT_FLAG = 1 <<
 HB = 'LendingPoolHandleBankruptcy'
 
 
-def t_bankruptcy_handler(world):
+def t_bankruptcy_handler(world, oid='C07.b'):
     from specs.handlers import run_handler, KERNELS, short, TOKEN_DEREF
     from specs.flows import SUMMARIES, evs, cellname
     from specs.C01 import CACHE_SUMMARIES
     from specs.C12 import find_accounts
     kernels = [k for k in KERNELS if k not in (r'BankAccountWrapper', r'update_bank_cache$', r'update_cache_price$')]
     eng, f, args, res = run_handler(world, r'handle_bankruptcy::lending_pool_handle_bankruptcy$', kernels=kernels, summaries=list(SUMMARIES) + CACHE_SUMMARIES + TOKEN_DEREF)
-    ob = Ob('C07.b', 'handle_bankruptcy: authorised signer unless the bank is permissionless; bankruptcy test passed first; the position of THIS bank owes > 0.0001; '
+    ob = Ob(oid, 'handle_bankruptcy: authorised signer unless the bank is permissionless; bankruptcy test passed first; the position of THIS bank owes > 0.0001; '
             'covered = min(bad debt, insurance available), ceil(covered) (or its pre-fee image) moves insurance vault -> liquidity vault; socialize_loss(bad debt - covered); repay(bad debt) on the same bank; '
             'account disabled; bank killed iff socialize_loss says so',
             [f.name], 'handler mode: kernels opaque, wrapper ops summarised, cache refreshers summarised by frame lemma C01.c; 16 slots unrolled; every accepting path'); ob.paths = len(res)
